@@ -616,8 +616,6 @@ def _ubits(c):
 @model_re(r'^' + UINT + r'::(new|u64|u128|from_u128|from_uint128|from_uint256|to_be_bytes_placeholder|as_u128)$')
 def uint_identity(I, c):
     v = deref(c.args[0])
-    if c.method == 'as_u128':
-        return I.wrap(v, 128)
     return v
 
 
@@ -634,6 +632,26 @@ def uint_zero_one(I, c):
 @model_re(r'^' + UINT + r'::is_zero$|^Decimal(256)?::is_zero$')
 def uint_is_zero(I, c):
     return simp(smt.Eq(deref(c.args[0]), 0))
+
+
+@model_re(r'^U256::(checked_add|checked_sub|checked_mul)$')
+def u256_checked(I, c):
+    # `uint` crate: Option-returning
+    a, x = deref(c.args[0]), deref(c.args[1])
+    op = c.method
+    r = simp(a + x if op == 'checked_add' else (a - x if op == 'checked_sub' else a * x))
+    bad = r < 0 if op == 'checked_sub' else r >= (1 << 256)
+    if I.fork(bad):
+        return NONE()
+    return Some(r)
+
+
+@model_re(r'^U256::as_u128$')
+def u256_as_u128(I, c):
+    v = deref(c.args[0])
+    if I.fork(v >= (1 << 128)):
+        raise RustPanic('Integer overflow when casting to u128')
+    return v
 
 
 @model_re(r'^' + UINT + r'::(checked_add|checked_sub|checked_mul)$')
